@@ -76,4 +76,11 @@ TEXT["C06"] = {
     "note": COMMON_NOTE + "The equivariance hypothesis is not discharged for the concrete C++ tracker (partial); it is what the unroll comparison tests.",
     "technique": "Lean 4 theorems (abstract refinement of loop folding) + oracle / equality correspondence over a transient x period x repetitions grid",
 }
+TEXT["C08"] = {
+    "level": "Kernel-checked for every nesting and repeat count: the block-wise closed form of total_detector_shift equals the detector offset reached by executing the model one instruction at a time "
+             "(mutual structural induction); flatten is defined as that execution. Correspondence under ASan+UBSan: flattened(), iteration, counts, shifts and detector coordinates equal the Lean "
+             "executor in exact rational arithmetic; print/parse round trip exact on doubles with full mantissas.",
+    "note": COMMON_NOTE + "The byte-level parser/printer model is not yet in Lean (partial): acceptance/rejection of malformed text and parser totality are not yet decided by this check.",
+    "technique": "Lean 4 theorems (mutual induction over the model AST) + model-equality correspondence in exact rationals",
+}
 NOT_CLAIMED = {}
